@@ -528,6 +528,9 @@ func (c *Chain) FilterBlocks(req *chain.FilterBlocksRequest) (*chain.FilterBlock
 	return nil, nil
 }
 
+// ErrDefaultAnswer, returned by SendAnswer, makes the backend answer as it would without a script.
+var ErrDefaultAnswer = errors.New("mockchain: default answer")
+
 func (c *Chain) SendRawTransaction(tx *wire.MsgTx, allowHighFees bool) (*chainhash.Hash, error) {
 	h := tx.TxHash()
 	c.mu.Lock()
@@ -535,13 +538,19 @@ func (c *Chain) SendRawTransaction(tx *wire.MsgTx, allowHighFees bool) (*chainha
 	var err error
 	if c.SendAnswer != nil {
 		err = c.SendAnswer(tx)
-	} else if _, known := c.mempool[h]; known {
-		// what a real backend answers to a re-broadcast
-		err = chain.ErrTxAlreadyInMempool
 	} else {
-		for _, in := range tx.TxIn {
-			if c.tracked[in.PreviousOutPoint.Hash] && !c.hasTxLocked(in.PreviousOutPoint.Hash) {
-				err = errors.New("mockchain: missing inputs (the parent transaction is unknown to the backend)")
+		err = ErrDefaultAnswer
+	}
+	if err == ErrDefaultAnswer {
+		err = nil
+		if _, known := c.mempool[h]; known {
+			// what a real backend answers to a re-broadcast
+			err = chain.ErrTxAlreadyInMempool
+		} else {
+			for _, in := range tx.TxIn {
+				if c.tracked[in.PreviousOutPoint.Hash] && !c.hasTxLocked(in.PreviousOutPoint.Hash) {
+					err = errors.New("mockchain: missing inputs (the parent transaction is unknown to the backend)")
+				}
 			}
 		}
 	}
